@@ -224,6 +224,13 @@ def run_case(data):
     if mode == 'model+bytes':
         stream = bytesgen.mutate_bytes(ch, stream, 0 if sc.client else 24)
     cuts = bytesgen.chunkings(ch, len(stream), 1)[0] if ch.bool() else []
+    # the message grammar is a matter of framing and stream state: it holds under every configuration of the
+    # header-processing switches (half of the cases run with the defaults)
+    cfgbits = ch.u8()
+    if cfgbits & 1:
+        sc.cfg = {'validate_inbound_headers': not cfgbits & 2, 'normalize_inbound_headers': not cfgbits & 4,
+                  'header_encoding': 'utf-8' if cfgbits & 8 else None}
+        r.labels.add('non-default-config')
     ep = sc.endpoint()
     mon = Monitor(sc.client, r)
     err = None
